@@ -232,6 +232,29 @@ class History:
                 else:
                     d["flags"].add("disk-reread")
 
+    def op_late(self, k):
+        """A request that names a document after it was closed (a save or a dictionary quick fix that was in
+        flight with the close): the closed document must stay without diagnostics."""
+        d = self.docs[k]
+        kind = self.rng.choice(["didSave", "HarperAddToFileDict", "HarperAddToUserDict"])
+        n = self.server.n_publishes(d["uri"])
+        if kind == "didSave":
+            self.trace.append({"op": "didSave(closed document)", "doc": k})
+            self.server.save(d["uri"], wait=False)
+        else:
+            w = self.rng.choice(WORDS)
+            self.trace.append({"op": kind + "(closed document)", "doc": k, "word": w})
+            self.server.command(kind, [w, d["uri"]])
+            if kind == "HarperAddToUserDict":
+                if w not in self.user_words:
+                    self.user_words.append(w)
+                for k2, d2 in self.docs.items():
+                    if d2["open"] and d2["env"] != self.env_now(k2):
+                        d2["flags"].add("not-refreshed")
+            elif d["path"] and w not in self.file_words[k]:
+                self.file_words[k].append(w)
+        self.wait(lambda: self.server.n_publishes(d["uri"]) > n, timeout=3.0)
+
     def op_delete(self, k):
         d = self.docs[k]
         self.trace.append({"op": "didChangeWatchedFiles(Deleted)", "doc": k})
@@ -345,7 +368,10 @@ def run_history(base, refbase, idx, seed, tier):
             opened = [k for k, d in h.docs.items() if d["open"]]
             closed = [k for k, d in h.docs.items() if not d["open"]]
             r = rng.random()
-            if not opened or (closed and r < 0.18):
+            late = [k for k in closed if h.docs[k]["ever"] and h.docs[k]["path"] and k in h.disk]
+            if opened and late and r < 0.07:
+                h.op_late(rng.choice(late))
+            elif not opened or (closed and r < 0.18):
                 h.op_open(rng.choice(closed))
             elif r < 0.38:
                 h.op_change(rng.choice(opened))
